@@ -56,9 +56,11 @@ class Prop:
             "edits (deep and copy='ref' links, shared and cyclic), then at generated points "
             "restart (pickle protocols 2-5 of the whole pool), fork (deepcopy of the pool) or "
             "copy of one object (clone_traits deep/None/shallow, deepcopy, copy) followed by a "
-            "liveness battery on the copy (invalid items at every depth, items events, declared "
+            "liveness battery on the copy (first of all every cached property against the copy's "
+            "own state - a class-level handler reads a two-dependency cached property while the "
+            "object is being filled -, then invalid items at every depth, items events, declared "
             "observers, observed property, ReadOnly second write) with the history continuing on "
-            "restored pools, plus round trips (pickle/copy/deepcopy) of 14 kinds of trait "
+            "restored pools, plus round trips (pickle/copy/deepcopy) of 38 kinds of trait "
             "definition objects compared with their originals on a value set; non-trivial = at "
             "least one restart/fork/copy happened on a non-default state and the battery ran; "
             "distinct = distinct abstract traces")
